@@ -163,6 +163,26 @@ def is_group(txt):
             return len(cs) == 5 and all(v <= 255 for v in cs[2:])
     return False
 
+def is_groups(txt):
+    """a `;`-join of complete parameter groups (e.g. the verbatim `1;32`): joining such settings with
+    `;` cannot fuse or split a group, so the terminal reads exactly their concatenated codes"""
+    items = txt.split(';')
+    if not all(it.isascii() and it.isdigit() for it in items):
+        return False
+    cs = [int(it) for it in items]
+    i = 0
+    while i < len(cs):
+        if cs[i] in (38, 48, 58):
+            if i + 2 < len(cs) and cs[i + 1] == 5 and cs[i + 2] <= 255:
+                i += 3
+            elif i + 4 < len(cs) and cs[i + 1] == 2 and all(v <= 255 for v in cs[i + 2:i + 5]):
+                i += 5
+            else:
+                return False
+        else:
+            i += 1
+    return True
+
 def eff(setting_texts):
     """effective state of an ordered list of setting texts (later overrides earlier)"""
     codes = []
